@@ -8,9 +8,10 @@ unit = P.UNITS[sys.argv[1]]
 d = '/var/tmp/shvdev-' + sys.argv[1]
 os.makedirs(d, exist_ok=True)
 subprocess.check_call(['rsync', '-a', '--delete', '--exclude', '/target', '--exclude', '.git', '--exclude', '/*/target', '/repo/', d + '/'])
-for rel, hf in unit['inject']:
+for inj in unit['inject']:
+    rel, hf = inj[0], inj[1]
     with open(os.path.join(d, rel), 'a') as f:
-        f.write('\n#[cfg(kani)] #[path = "%s"] mod verif_kani;\n' % hf)
+        f.write('\n#[cfg(kani)] #[path = "%s"] mod %s;\n' % (hf, inj[2] if len(inj) > 2 else 'verif_kani'))
 import re
 for rel, pat, rep, mn in unit.get('rewrite', []):
     q = os.path.join(d, rel); t = open(q).read(); open(q, 'w').write(re.sub(pat, rep, t))
